@@ -13,6 +13,7 @@ type inProcessTransport struct {
 	addr    InProcessAddr
 	envChan chan envelope
 	done    chan bool
+	closing chan struct{} // closing is closed when the transport is closed, to release the pending Send calls
 	closed  bool
 	mu      sync.RWMutex
 }
@@ -24,6 +25,7 @@ func (t *inProcessTransport) Close() error {
 	if !t.closed {
 		t.closed = true
 		t.done <- true
+		close(t.closing)
 	}
 
 	if !t.remote.closed {
@@ -34,12 +36,18 @@ func (t *inProcessTransport) Close() error {
 	return nil
 }
 
-func (t *inProcessTransport) Send(_ context.Context, e envelope) error {
-	if !t.Connected() {
+func (t *inProcessTransport) Send(ctx context.Context, e envelope) error {
+	if t.isClosed() {
 		return errors.New("transport is closed")
 	}
-	t.remote.envChan <- e
-	return nil
+	select {
+	case <-ctx.Done():
+		return fmt.Errorf("send: %w", ctx.Err())
+	case <-t.closing:
+		return errors.New("transport was closed while sending")
+	case t.remote.envChan <- e:
+		return nil
+	}
 }
 
 func (t *inProcessTransport) Receive(ctx context.Context) (envelope, error) {
@@ -61,6 +69,7 @@ func newInProcessTransport(addr InProcessAddr, bufferSize int) *inProcessTranspo
 		addr:    addr,
 		envChan: make(chan envelope, bufferSize),
 		done:    make(chan bool, 1),
+		closing: make(chan struct{}),
 	}
 }
 
@@ -100,6 +109,12 @@ func (t *inProcessTransport) Connected() bool {
 	t.mu.RLock()
 	defer t.mu.RUnlock()
 	return !t.closed
+}
+
+func (t *inProcessTransport) isClosed() bool {
+	t.mu.RLock()
+	defer t.mu.RUnlock()
+	return t.closed
 }
 
 func (t *inProcessTransport) LocalAddr() net.Addr {
